@@ -278,6 +278,12 @@ impl PartitionSpiller {
         partition.byte_size = total_data_size;
         partition.row_count = row_count;
 
+        #[cfg(kahflane_turdb_verif)]
+        crate::verif::point(
+            "spill.partition",
+            &[partition_id as i64, row_count as i64, total_data_size as i64],
+        );
+
         Ok(())
     }
 
